@@ -76,7 +76,7 @@ func containerParsers() []parsers {
 }
 
 func runParser(c *fw.Case, p parsers, b []byte) (set []pdus.TLV, err error, ok bool) {
-	in := append([]byte(nil), b...)
+	in := spareView(b) // a window of a larger buffer: what follows belongs to something else
 	arm(c, len(b))
 	pan, val, st := fw.Try(func() { set, err = p.run(in) })
 	disarm(c)
